@@ -98,6 +98,7 @@ def run_c01(tier):
                 chk.corr_compared += 1
                 if out != pym:
                     chk.correspondence_mismatch('Py.encode = Message.encode', casej, out, pym)
+        documented_examples(chk, 'C01')
     finally:
         corpus.close()
     return chk.finish()
@@ -196,16 +197,19 @@ int main()
 {
     show<S4>("S4", hex("0102000000000000000000000000f83f"), hex("01020000000000003ff8000000000000"));
     show<S5>("S5", hex("0700000000002040"), hex("0000000740200000"));
+    show<S5>("S5n", hex("070000000100a07f"), hex("000000077fa00001"));      /* a signalling NaN: typed moves through the x87 unit quiet it */
+    show<S4>("S4n", hex("0102000000000000010000000000f47f"), hex("01020000000000007ff4000000000001"));
     show<S6>("S6", hex("0000803f000000400000404002000000000000000000f83f000000000000f0bf"),
              hex("3f8000004000000040400000000000023ff8000000000000bff0000000000000"));
 }
 ''')
         want = {'S4': ('0102000000000000000000000000f83f', '01020000000000003ff8000000000000'), 'S5': ('0700000000002040', '0000000740200000'),
+                'S5n': ('070000000100a07f', '000000077fa00001'), 'S4n': ('0102000000000000010000000000f47f', '01020000000000007ff4000000000001'),
                 'S6': ('0000803f000000400000404002000000000000000000f83f000000000000f0bf',
                        '3f8000004000000040400000000000023ff8000000000000bff0000000000000')}
-        for opt in ('-O2', '-O3'):
-            exe = os.path.join(d, 'unity' + opt)
-            p = subprocess.run(['g++', '-std=c++11', opt, '-I' + os.path.join(_py.REPO, 'prophy_cpp', 'include'), '-I' + d, os.path.join(d, 'main.cpp'), '-o', exe],
+        for opt in ('-O2', '-O3', '-O2 -mfpmath=387'):
+            exe = os.path.join(d, 'unity' + opt.replace(' ', ''))
+            p = subprocess.run(['g++', '-std=c++11'] + opt.split() + ['-I' + os.path.join(_py.REPO, 'prophy_cpp', 'include'), '-I' + d, os.path.join(d, 'main.cpp'), '-o', exe],
                                stdout=subprocess.PIPE, stderr=subprocess.STDOUT, timeout=600)
             if p.returncode != 0:
                 raise core.Infra('unity build failed: ' + p.stdout.decode(errors='replace')[-800:])
@@ -351,6 +355,51 @@ def classify_c02(case, detail):
     return None
 
 
+def documented_examples(chk, prop):
+    """what the documentation shows is what the code does: the byte dump of docs/encoding.rst's externally sized array (D123),
+    the hand-written descriptors of docs/example/values.py and docs/python_codec.rst (D124)"""
+    import re
+    import prophy
+    docs = os.path.join(py_impl.REPO, 'docs')
+    if prop == 'C01':
+        text = open(os.path.join(docs, 'encoding.rst')).read()
+        m = re.search(r'u8 size;[^\n]*\n\s*u8 x<@size>;[^\n]*\n\s*u16 y<@size>;.*?encodes as::\s*\n\s*\n\s*([0-9a-fA-F ]+)\n', text, re.S)
+        chk.count(('doc', 'externally sized array'), True)
+        if not m:
+            raise core.Infra('the externally sized array example of docs/encoding.rst was not found')
+        ns = handwritten([('Ext', [('size', 'prophy.u8'), ('x', 'prophy.array(prophy.u8, bound="size")'), ('y', 'prophy.array(prophy.u16, bound="size")')])])
+        x = ns['Ext']()
+        x.x[:] = [4, 5]
+        x.y[:] = [6, 7]
+        shown, got = m.group(1).replace(' ', '').lower(), x.encode('<').hex()
+        if shown != got:
+            chk.property_violation({'schema': 'docs/encoding.rst, externally sized array', 'value': 'x = [4, 5], y = [6, 7]'},
+                                   {'what': 'the documented bytes differ from encode()', 'documented': shown, 'encode': got})
+    else:
+        import importlib.util
+        chk.count(('doc', 'hand-written descriptors'), True)
+        spec = importlib.util.spec_from_file_location('verif_doc_values', os.path.join(docs, 'example', 'values.py'))
+        mod = importlib.util.module_from_spec(spec)
+        try:
+            spec.loader.exec_module(mod)
+            v = mod.Values()
+            data = v.encode('<')
+            mod.Values().decode(data, '<')
+            mod.Values().decode(b'\x01', '<')
+            outcome = 'decode of a truncated message returned'
+        except prophy.ProphyError:
+            outcome = None
+        except Exception as ex:  # noqa
+            outcome = '%s: %s' % (py_impl.exc_class(ex), str(ex)[:120])
+        if outcome:
+            chk.property_violation({'schema': 'docs/example/values.py (the documented way to write descriptors by hand)', 'data': '01'},
+                                   {'what': 'decode through the documented descriptors did not return or raise ProphyError: ' + outcome})
+        text = open(os.path.join(docs, 'python_codec.rst')).read()
+        if re.search(r'^\s*__metaclass__\s*=', text, re.M):
+            chk.property_violation({'schema': 'docs/python_codec.rst'}, {'what': 'the documentation declares descriptors with the Python 2 __metaclass__ attribute: '
+                                                                                 'on Python 3 such a class has no codec (decode raises AttributeError)'})
+
+
 def handwritten(descriptors):
     """hand-written message classes: [(name, 'struct', [(field, type expr)])] evaluated in order; returns {name: class}"""
     import prophy
@@ -396,6 +445,9 @@ def directed_c02(chk):
         ('Floats', [('f', 'prophy.r32'), ('d', 'prophy.r64'), ('n', 'prophy.u32'), ('a', 'prophy.array(prophy.r32, bound="n")')]),
         ('Empty', []),
         ('GreedyEmpty', [('a', 'prophy.u32'), ('g', 'prophy.array(Empty)')]),
+        ('ShiftBig', [('n', 'prophy.u32'), ('a', 'prophy.array(prophy.u8, bound="n", shift=65537)')]),
+        ('ShiftTwo', [('n', 'prophy.u32'), ('a', 'prophy.array(prophy.u8, bound="n", shift=2)')]),
+        ('ShiftBytes', [('n', 'prophy.u32'), ('b', 'prophy.bytes(bound="n", shift=65536)')]),
     ]
     ns = handwritten(hand)
     DESCRIPTORS = {n: repr(f) for n, f in hand}
@@ -443,6 +495,10 @@ def directed_c02(chk):
                   lambda x, y, d: y.f == r32(0.1) and y.d == float(2 ** 53 + 1) and list(y.a) == [r32(16777217)])
         roundtrip('representable-floats', ns['Floats'], lambda x: (setattr(x, 'f', 0.5), setattr(x, 'd', 0.1), x.a.append(-3.25)), ['f', 'd', 'a'], e,
                   lambda x, y, d: False)
+        # the counter guard bounds the element count, whatever the shift (defect D141)
+        roundtrip('shifted-counter', ns['ShiftBig'], lambda x: None, ['a'], e, lambda x, y, d: False)
+        roundtrip('shifted-counter', ns['ShiftTwo'], lambda x: x.a.extend([7] * 65535), ['a'], e, lambda x, y, d: False)
+        roundtrip('shifted-counter', ns['ShiftBytes'], lambda x: setattr(x, 'b', b'x'), ['b'], e, lambda x, y, d: False)
         roundtrip('D56', ns['GreedyEmpty'], lambda x: (setattr(x, 'a', 7), x.g.add(), x.g.add()), ['a', 'g'], e,
                   lambda x, y, d: list(d) == ['g'] and len(y.g) == 0)
 
@@ -668,6 +724,7 @@ def run_c06(tier):
                 chk.correspondence_mismatch('Py.decode = Message.decode (malformed stream)', casej, dec, model)
         chk.extra['slowest_decode_s'] = round(slow, 4)
         directed_c06(chk)
+        documented_examples(chk, 'C06')
     finally:
         corpus.close()
     return chk.finish()
